@@ -61,12 +61,20 @@ pub fn configs(tier: Tier, judge: u32, liveness: bool) -> Vec<OutCfg> {
                             variants.push((2, false, 1, true));
                         }
                     }
+                    // "streamed sends paused by back-pressure resume when it lifts" - and so do the others
+                    if liveness && cap == 1 && size == 2 && senders.iter().all(|k| matches!(k, SK::Q1 | SK::Ready)) {
+                        variants.push((0, false, 1, true));
+                    }
                     for (cancels, batch, bp, fill) in variants {
                         if !liveness && cancels > 1 {
                             continue;
                         }
                         let mut senders = senders.clone();
-                        if fill {
+                        if fill && cancels == 0 {
+                            // Q0Fill, then a streamed QoS 0 publish of two chunks, then the ordinary senders
+                            senders.insert(0, SK::Stream { qos: 0, size: 6, plan: 1 });
+                            senders.insert(0, SK::Q0Fill);
+                        } else if fill {
                             senders.insert(0, SK::Q0Fill);
                             if !senders.contains(&SK::Q1) || senders.len() < 4 {
                                 senders.push(SK::Q1);
@@ -88,6 +96,33 @@ pub fn configs(tier: Tier, judge: u32, liveness: bool) -> Vec<OutCfg> {
                         });
                     }
                 }
+            }
+        }
+        // a sender that is woken but then fails locally (over-size packet) does not occupy the slot it was
+        // woken for: the next parked sender must get the wake-up
+        if liveness {
+            for senders in [vec![SK::Q1, SK::Q1Big, SK::Q1], vec![SK::Q1, SK::Q1Big, SK::Ready], vec![SK::Q2Rel, SK::Q1Big, SK::Q1Big, SK::Q1]] {
+                let mut ep = ep_for(EpCfg::new(ver, role), 1, false);
+                match (ver, role) {
+                    (Ver::V5, Role::Client) => ep.client_connack_props.push((0x27, crate::refmqtt::PVal::U32(100))),
+                    (Ver::V3, Role::Server) => ep.hs_max_packet_size = Some(100),
+                    (Ver::V3, Role::Client) => ep.max_size = 100,
+                    _ => {}
+                }
+                v.push(OutCfg {
+                    ep,
+                    cap: 1,
+                    senders,
+                    cancels: 0,
+                    batch: false,
+                    bp: 0,
+                    peer: PeerMode::Correct,
+                    judge,
+                    prologue: 0,
+                    peer_max_packet: 100,
+                    inbound: 0,
+                    may_close: false,
+                });
             }
         }
     }
